@@ -2,6 +2,9 @@
 mod adapter;
 mod checks;
 mod driver;
+mod faulty;
+mod hashsim;
+mod introspect;
 mod model;
 mod qast;
 mod runner;
